@@ -16,7 +16,7 @@ import (
 // sequential random histories against a reference model
 
 type op struct {
-	K        string `json:"k"` // load start permanent transient temporary stop force timeout unload death
+	K        string `json:"k"` // load start permanent transient temporary stop force timeout unload death block release
 	App      int    `json:"app"`
 	Slot     int    `json:"slot,omitempty"`
 	How      string `json:"how,omitempty"`
@@ -31,6 +31,9 @@ func (o op) String() string {
 	if o.K == "death" {
 		s += fmt.Sprintf(" slot%d %s", o.Slot, o.How)
 	}
+	if o.K == "block" || o.K == "release" {
+		s += fmt.Sprintf(" slot%d", o.Slot)
+	}
 	if o.Fail >= 0 {
 		s += fmt.Sprintf(" fail=a%d/slot%d wait=%v", o.FailApp, o.Fail, o.FailWait)
 	}
@@ -43,10 +46,16 @@ func (o op) String() string {
 type mApp struct {
 	loaded  bool
 	running bool
-	mode    gen.ApplicationMode
-	alive   map[int]bool // slot -> alive (current run)
-	stopped int          // number of completed runs
-	att     int32        // attempt number of the current run
+	// stopping: a stop has begun (request or mode rule) but members kept busy by the harness are
+	// still alive; alive then holds exactly those members
+	stopping   bool
+	stopCause  string
+	stopAccept []error
+	blocked    map[int]bool // slot -> kept busy inside a handler
+	mode       gen.ApplicationMode
+	alive      map[int]bool // slot -> alive (current run)
+	stopped    int          // number of completed runs
+	att        int32        // attempt number of the current run
 	// reasons of earlier stops (to recognise a stale reason)
 	pastReasons []error
 }
@@ -68,16 +77,17 @@ const (
 )
 
 type hist struct {
-	id      string
-	apps    []*App
-	depIdx  [][]int
-	m       []*mApp
-	ops     []op
-	res     *result
-	log     []string
-	classes map[string]bool
-	wedged  bool    // an application of this case is dead-locked: do not touch it any more
-	nextAtt []int32 // attempt number the members created by the current step will carry
+	id                                  string
+	apps                                []*App
+	depIdx                              [][]int
+	m                                   []*mApp
+	ops                                 []op
+	res                                 *result
+	log                                 []string
+	classes                             map[string]bool
+	wedged                              bool // an application of this case is dead-locked: do not touch it any more
+	unloadInStopping, stoppingCompleted int
+	nextAtt                             []int32 // attempt number the members created by the current step will carry
 	// measured
 	deathStops, restarts, failedStarts int
 }
@@ -114,6 +124,10 @@ func (h *hist) mStart(x int, mode gen.ApplicationMode, withDeps bool, o *op, exm
 	if a.running {
 		return rRunning
 	}
+	if a.stopping {
+		// neither startable nor "already running": the call (and a dependent's start) fails
+		return rOther
+	}
 	e := h.ex(exm, x)
 	if o.Fail >= 0 && o.FailApp == x {
 		e.newSlots = seq(o.Fail + 1)
@@ -123,6 +137,7 @@ func (h *hist) mStart(x int, mode gen.ApplicationMode, withDeps bool, o *op, exm
 	a.running = true
 	a.mode = mode
 	a.att = h.nextAtt[x]
+	a.blocked = map[int]bool{}
 	a.alive = map[int]bool{}
 	for s := 0; s < h.apps[x].N; s++ {
 		a.alive[s] = true
@@ -142,13 +157,39 @@ func (h *hist) snapshot() []*mApp {
 			c.alive[k] = v
 		}
 		c.pastReasons = append([]error(nil), a.pastReasons...)
+		c.stopAccept = append([]error(nil), a.stopAccept...)
+		c.blocked = map[int]bool{}
+		for k, v := range a.blocked {
+			c.blocked[k] = v
+		}
 		r = append(r, &c)
 	}
 	return r
 }
 
+// mBeginStop: a stop begins (request or mode rule). Members not kept busy terminate; if busy
+// ones remain the application stays in state stopping, otherwise the stop completes.
+func (h *hist) mBeginStop(x int, exm map[int]*expect, cause string, accept ...error) {
+	a := h.m[x]
+	for s := range a.alive {
+		if !a.blocked[s] {
+			delete(a.alive, s)
+		}
+	}
+	if len(a.alive) == 0 {
+		h.mStop(x, h.ex(exm, x), cause, accept...)
+		return
+	}
+	a.running = false
+	a.stopping = true
+	a.stopCause = cause
+	a.stopAccept = accept
+}
+
 func (h *hist) mStop(x int, e *expect, cause string, accept ...error) {
 	a := h.m[x]
+	a.stopping = false
+	a.blocked = map[int]bool{}
 	a.running = false
 	a.alive = map[int]bool{}
 	a.stopped++
@@ -159,7 +200,10 @@ func (h *hist) mStop(x int, e *expect, cause string, accept ...error) {
 
 // genOp picks the next operation from the model state (a function of seed and earlier ops only)
 func (h *hist) genOp(rng *rand.Rand, step int) op {
-	x := rng.Intn(len(h.apps))
+	return h.genOpFor(rng, rng.Intn(len(h.apps)))
+}
+
+func (h *hist) genOpFor(rng *rand.Rand, x int) op {
 	a := h.m[x]
 	o := op{App: x, Fail: -1}
 	startKinds := []string{"start", "start", "start", "permanent", "transient", "temporary"}
@@ -228,6 +272,78 @@ func (h *hist) genOp(rng *rand.Rand, step int) op {
 	return o
 }
 
+// genOpB: like genOp, but it keeps members busy inside a handler so that stops stay in
+// progress over several steps, and it prefers the operations that are interesting then
+func (h *hist) genOpB(rng *rand.Rand, step int) op {
+	x := rng.Intn(len(h.apps))
+	// prefer an application that is stopping or has busy members
+	for k, a := range h.m {
+		if (a.stopping || len(a.blocked) > 0) && rng.Intn(3) > 0 {
+			x = k
+			break
+		}
+	}
+	a := h.m[x]
+	o := op{App: x, Fail: -1}
+	startKinds := []string{"start", "permanent", "transient", "temporary"}
+	var busy, free []int
+	for s, v := range a.alive {
+		if !v {
+			continue
+		}
+		if a.blocked[s] {
+			busy = append(busy, s)
+		} else {
+			free = append(free, s)
+		}
+	}
+	sort.Ints(busy)
+	sort.Ints(free)
+	shortStop := func() {
+		o.K = []string{"timeout", "timeout", "force"}[rng.Intn(3)]
+		o.Timeout = int64(20 * time.Millisecond)
+	}
+	p := rng.Intn(100)
+	switch {
+	case a.stopping:
+		switch {
+		case p < 30:
+			o.K, o.Slot = "release", busy[rng.Intn(len(busy))]
+		case p < 60:
+			o.K = "unload"
+		case p < 72:
+			o.K = startKinds[rng.Intn(len(startKinds))]
+		case p < 82:
+			shortStop()
+		case p < 90:
+			o.K = "stop" // refused at once while stopping
+		default:
+			o.K = "load"
+		}
+		return o
+	case a.running && len(busy) > 0:
+		switch {
+		case p < 35:
+			shortStop()
+		case p < 55 && len(free) > 0:
+			o.K, o.Slot, o.How = "death", free[rng.Intn(len(free))], hows[rng.Intn(len(hows))]
+		case p < 70:
+			o.K, o.Slot = "release", busy[rng.Intn(len(busy))]
+		case p < 80 && len(free) > 0:
+			o.K, o.Slot = "block", free[rng.Intn(len(free))]
+		case p < 90:
+			o.K = "unload"
+		default:
+			o.K = startKinds[rng.Intn(len(startKinds))]
+		}
+		return o
+	case a.running && p < 50:
+		o.K, o.Slot = "block", free[rng.Intn(len(free))]
+		return o
+	}
+	return h.genOpFor(rng, x)
+}
+
 func (h *hist) currentMembers(x int) map[int]*member {
 	a := h.apps[x]
 	att := h.m[x].att
@@ -266,6 +382,7 @@ func (h *hist) step(i int, o op) bool {
 	var victim *member
 	var wasAlive []*member
 	skippedDeps := ""
+	unloadWhileStopping := false
 	var idle []int // dependencies (transitive) that are not running before a start call
 	targetRunning := false
 	var snap []*mApp
@@ -306,7 +423,7 @@ func (h *hist) step(i int, o op) bool {
 			}
 			walk(x)
 		}
-		targetRunning = ma.running
+		targetRunning = ma.running || ma.stopping
 		snap = h.snapshot()
 		startMode = mode
 		// the property: every way of starting an application starts its dependencies first
@@ -317,26 +434,47 @@ func (h *hist) step(i int, o op) bool {
 			wantErr = 2
 		}
 	case "stop", "force", "timeout":
-		if ma.running {
+		if ma.running || ma.stopping {
 			for s, m := range h.currentMembers(x) {
 				if ma.alive[s] {
 					wasAlive = append(wasAlive, m)
 				}
 			}
-			if o.K == "force" {
-				h.mStop(x, h.ex(exm, x), "force", gen.TerminateReasonKill)
-			} else {
-				h.mStop(x, h.ex(exm, x), "stop", gen.TerminateReasonShutdown)
-			}
-		} else if !ma.loaded {
+		}
+		switch {
+		case ma.running && o.K == "force":
+			h.mBeginStop(x, exm, "force", gen.TerminateReasonKill)
+		case ma.running:
+			h.mBeginStop(x, exm, "stop", gen.TerminateReasonShutdown)
+		case ma.stopping && o.K == "force":
+			// a forced stop takes over a stop in progress: the busy members are killed as soon as they
+			// leave their handler, the reason of the run becomes kill
+			ma.stopCause, ma.stopAccept = "force", []error{gen.TerminateReasonKill}
+		case ma.stopping:
+			// refused (stopping in progress): a nil return is caught by the check at the return instant
+		case !ma.loaded:
 			wantErr = 2
 		}
 	case "unload":
-		if ma.loaded && !ma.running {
+		if ma.loaded && !ma.running && !ma.stopping {
 			wantErr = 1
 			ma.loaded = false
 		} else {
 			wantErr = 2
+			unloadWhileStopping = ma.stopping
+		}
+	case "block":
+		victim = h.currentMembers(x)[o.Slot]
+		ma.blocked[o.Slot] = true
+	case "release":
+		victim = h.currentMembers(x)[o.Slot]
+		delete(ma.blocked, o.Slot)
+		if ma.stopping {
+			// the member leaves its handler and finds the exit signal (or has been killed meanwhile)
+			delete(ma.alive, o.Slot)
+			if len(ma.alive) == 0 {
+				h.mStop(x, h.ex(exm, x), ma.stopCause, ma.stopAccept...)
+			}
 		}
 	case "death":
 		victim = h.currentMembers(x)[o.Slot]
@@ -344,9 +482,9 @@ func (h *hist) step(i int, o op) bool {
 		delete(ma.alive, o.Slot)
 		switch {
 		case ma.mode == gen.ApplicationModePermanent:
-			h.mStop(x, h.ex(exm, x), "death-permanent", reason)
+			h.mBeginStop(x, exm, "death-permanent", reason)
 		case ma.mode == gen.ApplicationModeTransient && isAbnormal(reason):
-			h.mStop(x, h.ex(exm, x), "death-transient", reason)
+			h.mBeginStop(x, exm, "death-transient", reason)
 		case len(ma.alive) == 0:
 			h.mStop(x, h.ex(exm, x), "last-member", gen.TerminateReasonNormal, reason)
 		}
@@ -393,6 +531,35 @@ func (h *hist) step(i int, o op) bool {
 		}
 	case "unload":
 		err, pnc = safe(func() error { return node.ApplicationUnload(app.Name) })
+		if unloadWhileStopping {
+			h.unloadInStopping++
+			if err == nil && pnc == nil {
+				var still []string
+				for _, m := range app.Members() {
+					if alive(m.I.PID) {
+						still = append(still, m.I.PID.String())
+					}
+				}
+				r.v("unload-succeeded-while-stopping", "%sApplicationUnload returned nil although the stop of the application is still in progress (members %v are registered, the Terminate callback has not run): the stop can never be finalized", pre, still)
+				return false
+			}
+		}
+	case "block", "release":
+		if victim == nil {
+			if len(r.viols) == 0 {
+				r.incon = pre + "member not found"
+			}
+			return false
+		}
+		if o.K == "release" {
+			app.releaseMember(victim.I.PID)
+		} else if !app.blockMember(victim.I.PID) {
+			if len(r.viols) == 0 {
+				r.incon = pre + "watchdog: member did not enter the blocking handler"
+			}
+			h.wedged = true
+			return false
+		}
 	case "death":
 		if victim == nil {
 			if len(r.viols) == 0 {
@@ -554,6 +721,9 @@ func (h *hist) step(i int, o op) bool {
 		case "force":
 			mk.pastReasons = append(mk.pastReasons, gen.TerminateReasonKill)
 		}
+		if e.term && len(terms) == 1 && o.K == "release" {
+			h.stoppingCompleted++
+		}
 		if e.term && len(terms) == 1 {
 			h.classes[fmt.Sprintf("%s/%s", mk.mode, e.cause)] = true
 			if strings.HasPrefix(e.cause, "death") || e.cause == "last-member" {
@@ -606,7 +776,7 @@ func (h *hist) step(i int, o op) bool {
 		att := mk.att
 		for _, m := range a.Members() {
 			al := alive(m.I.PID)
-			cur := mk.running && m.Attempt == att
+			cur := (mk.running || mk.stopping) && m.Attempt == att
 			wantAlive := cur && mk.alive[m.Slot]
 			switch {
 			case al && !wantAlive:
@@ -632,6 +802,9 @@ func (h *hist) step(i int, o op) bool {
 		if mk.running {
 			wantState = "running"
 		}
+		if mk.stopping {
+			wantState = "stopping"
+		}
 		if st := appState(a.Name); st != wantState {
 			r.v("state-"+st+"-expected-"+wantState, "%sapp %s (mode %s): ApplicationInfo state %s at quiescence, expected %s; registered members %v", pre, a.Name, mk.mode, st, wantState, a.aliveSlots())
 			ok = false
@@ -640,8 +813,11 @@ func (h *hist) step(i int, o op) bool {
 	return ok
 }
 
-func runHistory(n int) {
+func runHistory(n int, blocking bool) {
 	id := fmt.Sprintf("H/%d", n)
+	if blocking {
+		id = fmt.Sprintf("HB/%d", n)
+	}
 	if !want(id) {
 		return
 	}
@@ -680,7 +856,12 @@ func runHistory(n int) {
 	steps := 8 + rng.Intn(16)
 	completed := true
 	for i := 0; i < steps; i++ {
-		o := h.genOp(rng, i)
+		var o op
+		if blocking {
+			o = h.genOpB(rng, i)
+		} else {
+			o = h.genOp(rng, i)
+		}
 		h.ops = append(h.ops, o)
 		if !h.step(i, o) {
 			completed = false
@@ -691,11 +872,24 @@ func runHistory(n int) {
 	for _, a := range h.apps {
 		events += a.events()
 	}
+	for _, a := range h.apps {
+		a.releaseAll()
+	}
 	if !h.wedged {
 		cleanup(h.apps...)
 	}
 	nontrivial := h.deathStops >= 1 && h.restarts >= 1
 	key := fmt.Sprintf("H/apps=%d/%s/failedstart=%v", nApps, strings.Join(sortedKeys(h.classes), ","), h.failedStarts > 0)
+	scenario := "history"
+	if blocking {
+		// non-trivial: an unload was attempted while the application was stopping and that stop
+		// was observed to complete afterwards
+		scenario = "history-stopping"
+		nontrivial = h.unloadInStopping >= 1 && h.stoppingCompleted >= 1
+		key = fmt.Sprintf("HB/apps=%d/%s/unload-in-stopping=%d", nApps, strings.Join(sortedKeys(h.classes), ","), h.unloadInStopping)
+		hk.Stat("history_unload_attempts_while_stopping", int64(h.unloadInStopping))
+		hk.Stat("history_delayed_stops_completed", int64(h.stoppingCompleted))
+	}
 	hk.Stat("history_steps", int64(len(h.ops)))
 	hk.Stat("history_stops_by_member_death", int64(h.deathStops))
 	hk.Stat("history_restarts_after_stop", int64(h.restarts))
@@ -704,5 +898,5 @@ func runHistory(n int) {
 	if n < 3 {
 		hk.Sample(map[string]any{"case": id, "apps": descs, "log": h.log})
 	}
-	finish(id, "history", key, nontrivial, events, h.res, detail)
+	finish(id, scenario, key, nontrivial, events, h.res, detail)
 }
